@@ -113,3 +113,14 @@ Fixpoint plain (i : item) : Prop :=
   | IStr s | IBytes s => N.of_nat (length s) < 18446744073709551616
   | _ => True
   end.
+
+(* what the skip walker accepts: it rejects simple values other than false/true/null/undefined *)
+Fixpoint skippable (t : wtree) : Prop :=
+  match t with
+  | TArr _ l | TArrI l => (fix go l := match l with [] => True | x :: r => skippable x /\ go r end) l
+  | TMap _ l | TMapI l => (fix go l := match l with [] => True | kv :: r => skippable (fst kv) /\ skippable (snd kv) /\ go r end) l
+  | TTag _ _ v => skippable v
+  | TSimple v => 20 <= v
+  | TSimple1 _ => False
+  | _ => True
+  end.
